@@ -570,11 +570,13 @@ def gen_task_sessions(ctx, M, rng):
     for rep in range(2 if ctx.quick else 10):
         T, rank = rng.randint(2, 4), rng.randint(1, 2)
         nparts = rng.randint(1, 3)
-        specs = [M.rand_leaf(rng, rng.choice(["rbf", "matern5", "rq"]), 1, False) for _ in range(nparts)]
+        specs = [M.rand_leaf(rng, rng.choice(["rbf", "matern5", "rq", "linear", "poly2", "linear"]), 1, False) for _ in range(nparts)]
+        if rep % 2 == 0:
+            specs[0] = M.rand_leaf(rng, rng.choice(["linear", "poly2"]), 1, False)      # non-constant data-kernel diagonal
         task = [{"B": [[rng.gauss(0, 1) for _ in range(rank)] for _ in range(T)],
                  "v": [M.logu(rng, 0.05, 2.0) for _ in range(T)]} for _ in range(nparts)]
         for th, shapes in theme_shapes(rng, [1, 2, 3], ["n*d", "n1*n2", "same-shape"], bok=False):
-            modes = rng.sample(["full", "x1only", "eager", "full", "x1only"], 5)
+            modes = rng.sample(["full", "x1only", "diag", "eager", "diag", "x1only"], 6)
             calls = realise(rng, shapes, M.rand_x, modes)
             sessions.append({"desc": f"reuse/{'MultitaskKernel' if nparts == 1 else 'LCMKernel'}/{th}", "T": T, "rank": rank,
                              "specs": specs, "task": task, "calls": calls, "theme": th})
@@ -635,14 +637,17 @@ def run_task_sessions(ctx, M, sessions, q, record=True):
                 with warnings.catch_warnings():
                     warnings.simplefilter("ignore")
                     with gpytorch.settings.lazily_evaluate_kernels(call["flags"].get("lazy", True)):
-                        out = mk(X1t, torch.tensor(call["x2"], dtype=torch.float64)) if call["x2"] is not None else mk(X1t)
-                        got = out.to_dense().detach().numpy()
+                        if call["flags"].get("diag"):
+                            got = mk(X1t, diag=True).detach().numpy()
+                        else:
+                            out = mk(X1t, torch.tensor(call["x2"], dtype=torch.float64)) if call["x2"] is not None else mk(X1t)
+                            got = out.to_dense().detach().numpy()
             except Exception as e:
                 ctx.fail(f"{name}/raises{SUFFIX}", f"{sess['desc']}: one kernel object, {history(sess, i)}: call #{i} raises "
                          f"{type(e).__name__}: {str(e)[:160]}", payload)
                 break
             h = q.ask(f"MT {len(parts)} {' '.join(parts)} {M.mat(call['x1'])} {M.mat(call['x2'] if call['x2'] is not None else call['x1'])}")
-            pend.append((sess, i, name, h, got, payload))
+            pend.append((sess, i, name + ("/diag" if call["flags"].get("diag") else ""), h, got, payload))
     ctx.count("reuse_task_calls", len(pend))
 
     def finish():
@@ -651,13 +656,15 @@ def run_task_sessions(ctx, M, sessions, q, record=True):
                 exp = np.array(C.fmat_to_float(M.parse_rat(q[h])))
             else:
                 exp = M.parse_bits(q[h])[0]
+            if name.endswith("/diag"):
+                exp = np.diagonal(exp)
             if record:
                 ctx.case({"reuse": sess["desc"], "call": i, "c": {k_: v for k_, v in sess["calls"][i].items() if k_ != "pre"}},
                          sample=None)
             if got.shape != exp.shape or not np.allclose(got, exp, rtol=1e-10, atol=1e-12):
                 hist = history(sess, i) if name != "IndexKernel" else \
                     " -> ".join(f"#{j}({len(c['i1'])}x{len(c['i2'])})" for j, c in enumerate(sess["calls"][:i + 1]))
-                ctx.fail(f"{name}/full{SUFFIX}", f"{sess['desc']}: call #{i} on ONE kernel object differs from " +
+                ctx.fail(f"{name if name.endswith('/diag') else name + '/full'}{SUFFIX}", f"{sess['desc']}: call #{i} on ONE kernel object differs from " +
                          ("(BBᵀ+diag v)[i,j]" if name == "IndexKernel" else "Σ K_data ⊗ K_task in the interleaved layout") +
                          f" (shape {got.shape} vs {exp.shape}); history: {hist}", payload)
     return finish
